@@ -67,19 +67,24 @@ impl BerHeader {
         let tag = match id_octets & 0x1f {
             0x1f => {
                 // > 30
-                let mut n = 0 as Tag;
+                // Tag numbers beyond the range of Tag are refused,
+                // not truncated: 258 must not read as 2
+                let mut n = 0u32;
                 loop {
                     if current >= i.len() {
                         return Err(Err::Incomplete(Needed::Unknown));
                     }
                     let t = i[current];
                     current += 1;
-                    n = (n << 7) | ((t & 0x7f) as Tag);
+                    n = (n << 7) | ((t & 0x7f) as u32);
+                    if n > Tag::MAX as u32 {
+                        return Err(Err::Failure(SnmpError::InvalidTagFormat));
+                    }
                     if t & 0x80 == 0 {
                         break;
                     }
                 }
-                n
+                n as Tag
             }
             n => n as Tag,
         };
